@@ -4,7 +4,7 @@ from .. import lean, proto, gen, util
 
 REQUIRED = ['Petl.C14.' + n for n in (
     'transpose_involutive unflatten_flatten melt_row_count melt_cells unpack_frame expand_frame splitdown_frame '
-    'fromcolumns_columns recast_cell').split()] + ['Petl.RecastMelt.' + n for n in (
+    'fromcolumns_columns recast_cell pivot_blocks pivot_cell').split()] + ['Petl.RecastMelt.' + n for n in (
     'recast_melt_rows recast_melt_eq recast_melt_table recast_melt_identity molten_eq_melt group_block strictAsc_ext').split()]
 
 CELLS = [None, 1, 2, 2.5, 'a', 'b', '', True]
@@ -65,7 +65,7 @@ def run(ctx):
         ctx.bridge('translator: fingerprints of the petl functions the hand-written models mirror (%d bodies)' % _fpi['names'], True)
     except Exception as e:   # noqa
         ctx.bridge('translator: source fingerprints extracted', False, repr(e))
-    ctx.prove(['PetlProofs.Props.C14', 'PetlProofs.RecastMelt', 'PetlProofs.Snapshot.C14'], REQUIRED + ['Petl.Snapshot.C14_sources_as_validated'])
+    ctx.prove(['PetlProofs.Props.C14', 'PetlProofs.Props.C14Pivot', 'PetlProofs.RecastMelt', 'PetlProofs.Snapshot.C14'], REQUIRED + ['Petl.Snapshot.C14_sources_as_validated'])
     rng = ctx.rng
     n = 1200 if ctx.thorough() else 200
     jobs = []
@@ -127,6 +127,14 @@ def run(ctx):
         names = rng.choice([None, ['u%d' % i for i in range(nun)]])
         add('unpack', 'rs unpack 1 %d %s %s %s %s' % (nun, '-' if names is None else proto.enc_row(names), proto.enc_bool(incl), proto.enc(m), proto.enc_table(U)),
             lambda U=U, nun=nun, names=names, incl=incl, m=m: etl.unpack(U, 'seq', nun if names is None else names, include_original=incl, missing=m), dict(table=repr(U), n=nun, names=repr(names), include_original=incl), len(U) > 2)
+        # unpack where an earlier cell of the row equals the unpacked cell (dropping the original must go by position, not by value)
+        U2 = [['dup', 'id', 'seq', 'z']]
+        for i in range(rng.choice([1, 3, 4])):
+            sv = rng.choice([(1, 2), (1,), [3, 4, 5], 'ab', ('x', None)])
+            U2.append([sv if rng.random() < 0.7 else rng.choice(CELLS), i, sv, rng.choice(CELLS)])
+        incl2 = rng.random() < 0.25
+        add('unpack', 'rs unpack 2 %d %s %s %s %s' % (nun, '-' if names is None else proto.enc_row(names), proto.enc_bool(incl2), proto.enc(m), proto.enc_table(U2)),
+            lambda U2=U2, nun=nun, names=names, incl2=incl2, m=m: etl.unpack(U2, 'seq', nun if names is None else names, include_original=incl2, missing=m), dict(table=repr(U2), n=nun, names=repr(names), include_original=incl2), len(U2) > 2)
         # unpackdict
         D = [['id', 'd']] + [[i, rng.choice([{'a': 1}, {'b': 2, 'a': None}, {}, {'c': 'x'}, None])] for i in range(rng.choice([0, 1, 3]))]
         Dm = [D[0]] + [[r[0], (tuple(r[1].items()) if isinstance(r[1], dict) else r[1])] for r in D[1:]]
